@@ -53,6 +53,13 @@ def check(pid, tier):
             v.violation(f"{pid}/miri", "Miri reported undefined behaviour or a failing oracle: " + miri.get("tail", "")[-600:], {"engine": "miri", "log": miri.get("log")})
         elif miri.get("status") != "clean":
             v.note_inconclusive("Miri slice did not run to completion: " + str(miri.get("status")))
+    if tier == "thorough" and pid == "C10":
+        fz = fuzz_slice(pid, v, wd, 180)
+        builds["libfuzzer"] = fz
+        if fz.get("status") != "ran":
+            v.note_inconclusive("coverage-guided fuzz slice did not run: " + str(fz))
+        else:
+            total += fz["executions"]
     cov = {
         "evaluations": total,
         "distinct_nontrivial": distinct,
@@ -89,3 +96,53 @@ def miri_slice(pid, wd):
     if "Undefined Behavior" in tail or "data race" in tail.lower():
         return {"status": "ub-or-failure", "log": log, "tail": tail}
     return {"status": f"exit {rc}", "log": log, "tail": tail}
+
+
+def fuzz_slice(pid, v, wd, seconds):
+    """Coverage-guided workload generation (libFuzzer via cargo-fuzz) for the decoder: every execution goes through the
+    same C10 oracle; crashes are re-judged with `vh judge` and reported with the oracle's own signature."""
+    import re
+    import shutil
+    src = os.path.join(C.VERIF, "harness")
+    copy = os.path.join(wd, "fuzzcrate")
+    shutil.rmtree(copy, ignore_errors=True)
+    shutil.copytree(src, copy, ignore=shutil.ignore_patterns("target", "corpus", "artifacts", "Cargo.lock"))
+    if C.REPO != "/repo":
+        ct = os.path.join(copy, "Cargo.toml")
+        s = open(ct).read().replace('path = "/repo"', f'path = "{C.REPO}"')
+        open(ct, "w").write(s)
+    tdir = os.path.join(C.TARGET, "fuzz" + C.repo_tag())
+    env = C.cargo_env({"CARGO_TARGET_DIR": tdir})
+    corpus = os.path.join(wd, "corpus")
+    arts = os.path.join(wd, "artifacts")
+    os.makedirs(arts, exist_ok=True)
+    vh = C.build_harness("release")
+    subprocess.run([vh, "corpus", corpus], check=False)
+    b = subprocess.run(["cargo", "+nightly", "fuzz", "build", "decode"], env=env, cwd=copy, stdout=subprocess.PIPE, stderr=subprocess.STDOUT, text=True)
+    if b.returncode != 0:
+        return {"status": "build-failed", "tail": b.stdout[-400:]}
+    cmd = ["cargo", "+nightly", "fuzz", "run", "decode", corpus, "--", f"-max_total_time={seconds}", "-timeout=10", "-max_len=700", f"-fork={C.NCPU}",
+           "-ignore_crashes=1", f"-artifact_prefix={arts}/", f"-seed={C.seed()}"]
+    try:
+        r = subprocess.run(cmd, env=env, cwd=copy, stdout=subprocess.PIPE, stderr=subprocess.STDOUT, text=True, timeout=seconds + 300)
+    except subprocess.TimeoutExpired:
+        return {"status": "watchdog"}
+    execs = [int(m.group(1)) for m in re.finditer(r"^#(\d+):", r.stdout, re.M)]
+    covs = [int(m.group(1)) for m in re.finditer(r"cov: (\d+)", r.stdout)]
+    found = sorted(os.listdir(arts))
+    info = {"status": "ran", "executions": max(execs) if execs else 0, "coverage_edges": max(covs) if covs else 0, "crash_artifacts": len(found), "seconds": seconds}
+    if found:
+        j = subprocess.run([vh, "judge"] + [os.path.join(arts, f) for f in found[:50]], stdout=subprocess.PIPE, text=True)
+        for line in j.stdout.splitlines():
+            try:
+                rec = json.loads(line)
+            except ValueError:
+                continue
+            if rec.get("violation"):
+                viol = rec["violation"]
+                v.violation(viol.get("signature", f"{pid}/fuzz"), f"[fuzz] {viol.get('detail')}", {"engine": "fuzz", "artifact": rec["file"], "input": viol.get("input")})
+        shutil.copytree(arts, os.path.join(C.REPLAYS, f"{pid}-fuzz-artifacts"), dirs_exist_ok=True)
+    if not execs:
+        info["status"] = "no-executions"
+        info["tail"] = r.stdout[-300:]
+    return info
